@@ -510,9 +510,13 @@ impl Check for MockExchangeRun {
                         c.open_order(req).await
                     });
                     pending.push((n, r, verdict, total_after, task));
-                    tokio::time::sleep(Duration::from_millis(case.pipeline_gap as u64 - 1)).await;
-                    // the spawned submission runs before the next one is made even with a gap of 0
-                    tokio::task::yield_now().await;
+                    // gap selector 1: a burst — all requests are handed over before the exchange gets to
+                    // run, so they sit in its request queue together (served in submission order)
+                    if case.pipeline_gap > 1 {
+                        tokio::time::sleep(Duration::from_millis(case.pipeline_gap as u64 - 1)).await;
+                        // the spawned submission runs before the next one is made
+                        tokio::task::yield_now().await;
+                    }
                 }
                 tokio::time::sleep(Duration::from_millis(2 * case.latency_ms as u64 + 200)).await;
                 let all: Vec<UnindexedAccountEvent> = notes.lock().unwrap().clone();
@@ -681,6 +685,7 @@ impl Check for MockExchangeRun {
                 rep.class_if(q > 0, "query");
                 rep.class_if(case.latency_ms > 0, "latency_positive");
                 rep.class_if(case.pipeline_gap > 3 && (case.pipeline_gap as u64) <= case.latency_ms as u64 && a >= 2, "pipelined_orders_closer_than_the_latency");
+                rep.class_if(case.pipeline_gap == 1 && a + r >= 2, "burst_of_requests_queued_together");
                 rep.class_if(FEES[case.fee_sel as usize % FEES.len()].0 < 0 && a > 0, "accepted_order_under_a_rebate_schedule");
                 rep.nontrivial = a > 0 && r > 0 && q > 0;
             }
@@ -691,7 +696,7 @@ impl Check for MockExchangeRun {
 }
 
 pub fn run(ctx: &mut Ctx) {
-    ctx.rule = "mock_ledger: 2..4 assets with generated initial balances (incl. zero), 1..3 spot instruments, fee in {0, 0.1%, 1%, 10%, 25%, -0.1%, -5%}, vec(request,1..30|60): side, price (2 dp), quantity explicit or sized against the spent asset's available balance (all of it / one 0.000001 more / half), 10% limit orders, 7% unknown instrument (an unrelated name or a listed name in lower case), 6% of the quantities carry a minus sign (read as magnitudes); checked after every request. mock_exchange_run: same with interleaved snapshot/balance/trade queries through MockExecution + MockExchange::run under the paused clock, latency 0..49 ms; in two thirds of the cases the client clock is a generated non-monotonic sequence and trade queries carry a cut-off — a whole second or exactly the announced time of an accepted fill — (expected = accepted fills announced with a time at or after it); in half of the cases 15% of the open requests are abandoned by their submitter before the exchange answers (still executed, announced and listed iff affordable); in a quarter of the cases the open requests are pipelined instead (one every 0..12 ms with nothing awaited in between; responses, notifications and the final balances are collected at the end). non-trivial = (ledger) an accepted sell AND a balance rejection AND a kind/instrument rejection in one history; (run) accepted + rejected + query; distinct by hash of the case.".into();
+    ctx.rule = "mock_ledger: 2..4 assets with generated initial balances (incl. zero), 1..3 spot instruments, fee in {0, 0.1%, 1%, 10%, 25%, -0.1%, -5%}, vec(request,1..30|60): side, price (2 dp), quantity explicit or sized against the spent asset's available balance (all of it / one 0.000001 more / half), 10% limit orders, 7% unknown instrument (an unrelated name or a listed name in lower case), 6% of the quantities carry a minus sign (read as magnitudes); checked after every request. mock_exchange_run: same with interleaved snapshot/balance/trade queries through MockExecution + MockExchange::run under the paused clock, latency 0..49 ms; in two thirds of the cases the client clock is a generated non-monotonic sequence and trade queries carry a cut-off — a whole second or exactly the announced time of an accepted fill — (expected = accepted fills announced with a time at or after it); in half of the cases 15% of the open requests are abandoned by their submitter before the exchange answers (still executed, announced and listed iff affordable); in a quarter of the cases the open requests are pipelined instead (a burst queued together, or one every 1..12 ms with nothing awaited in between; responses, notifications and the final balances are collected at the end). non-trivial = (ledger) an accepted sell AND a balance rejection AND a kind/instrument rejection in one history; (run) accepted + rejected + query; distinct by hash of the case.".into();
     ctx.assumptions = vec![
         "balances present for every asset of a configured instrument, total == free (what the builder sets up)".into(),
         "all arithmetic exact: prices 2 dp, quantities <= 6 dp, fees <= 3 dp".into(),
